@@ -324,15 +324,18 @@ pub fn check_trace_balance(rule: &str, obs: &Obs) -> Result<(), Failure> {
     let mut depth: i64 = 0;
     let mut stack: Vec<&str> = vec![];
     let mut outer_ok: Option<bool> = None;
+    // (informative lines may come before the first entry and after the last exit)
+    let mut seen_top = false;
     for (i, ev) in obs.trace.iter().enumerate() {
         match ev {
             TEv::Start { rule: r, depth: d, .. } => {
                 if *d as i64 != depth {
                     return Err(fail(format!("tracer value's own depth {} differs from nesting depth {} at event {} (tracer copied?)", d, depth, i), depth.to_string(), d.to_string()));
                 }
-                if depth == 0 && i != 0 {
+                if depth == 0 && seen_top {
                     return Err(fail("a second top-level rule entry in the trace", "one outermost entry", format!("event {i}: {:?}", ev)));
                 }
+                seen_top = true;
                 stack.push(r);
                 depth += 1;
             }
@@ -359,7 +362,7 @@ pub fn check_trace_balance(rule: &str, obs: &Obs) -> Result<(), Failure> {
     if depth != 0 {
         return Err(fail(format!("{} rule entries without exit (unbalanced trace)", depth), "balanced", format!("open: {:?}", stack)));
     }
-    match obs.trace.first() {
+    match obs.trace.iter().find(|e| !matches!(e, TEv::Info { .. })) {
         Some(TEv::Start { rule: r, pos: 0, .. }) if r == rule => {}
         other => return Err(fail("outermost trace entry is not the exported rule at offset 0", format!("Start({rule}, 0)"), format!("{:?}", other))),
     }
@@ -412,28 +415,29 @@ fn check_trace_vs_oracle(g: &GCtx, obs: &Obs, o: &Outcome) -> Result<(), Failure
     Ok(())
 }
 
-fn check_hooks(g: &GCtx, plain: &Obs, o: &Outcome) -> Result<(), Failure> {
+fn check_hooks(g: &GCtx, input: &str, plain: &Obs, o: &Outcome) -> Result<(), Failure> {
     let min: BTreeSet<(&str, &str)> = o.hooks.iter().map(|h| (h.name.as_str(), h.arg.as_str())).collect();
     let mut max = min.clone();
     max.extend(o.hooks_optional.iter().map(|h| (h.name.as_str(), h.arg.as_str())));
     let got: BTreeSet<(&str, &str)> = plain.hooks.iter().map(|h| (h.name.as_str(), h.arg.as_str())).collect();
     for c in &got {
+        // a @char check receives "the next character": which of the checks of nested classes are asked for a character
+        // (all of them, only those of the class that matched, the outer ones first ...) is not specified, so any
+        // character of the input is a possible argument
+        if c.0.starts_with("cc_") && c.1.chars().count() == 1 && input.contains(c.1) {
+            continue;
+        }
         if !max.contains(c) {
             return Err(fail("user function called with an argument the documented semantics never passes", format!("{} predicted calls, e.g. {:?}", max.len(), max.iter().take(6).collect::<Vec<_>>()), format!("{:?}", c)));
         }
     }
+    // What the statement fixes is the match decision (compared before this function runs) and the arguments. Whether a check
+    // whose verdict cannot change the decision is called at all, and in which order several checks are asked, is not
+    // specified (a behaviour-preserving change that asks @char checks only for characters of the class, or that does not
+    // short-circuit, raised a false alarm here): extern functions, whose result IS the match, must be called.
     for c in &min {
-        if !got.contains(c) {
-            return Err(fail("a predicted user function call was not made", format!("{:?}", c), format!("{} calls: {:?}", got.len(), got.iter().take(6).collect::<Vec<_>>())));
-        }
-    }
-    if !g.has_memo && !g.has_leftrec {
-        // without caches the call sequence is determined (checks short-circuit in order or not at all)
-        let a: Vec<(&str, &str)> = plain.hooks.iter().map(|h| (h.name.as_str(), h.arg.as_str())).filter(|c| min.contains(c)).collect();
-        let b: Vec<(&str, &str)> = o.hooks.iter().map(|h| (h.name.as_str(), h.arg.as_str())).collect();
-        if a != b {
-            let i = a.iter().zip(&b).position(|(x, y)| x != y).unwrap_or(a.len().min(b.len()));
-            return Err(fail(format!("user function call sequence differs at call {i}"), format!("{:?}", b.get(i)), format!("{:?}", a.get(i))));
+        if !got.contains(c) && c.0.starts_with("ext_") && !g.has_memo && !g.has_leftrec {
+            return Err(fail("a predicted extern function call was not made", format!("{:?}", c), format!("{} calls: {:?}", got.len(), got.iter().take(6).collect::<Vec<_>>())));
         }
     }
     // type of the check argument: the rule's own type
@@ -618,7 +622,7 @@ pub fn check_case(prop: &str, g: &GCtx, e: &RuleEntry, input: &str) -> Result<Ca
             let plain = observe(e.parse, input, MODE_PLAIN, salt);
             base_accept(g, e, input, &plain, &o)?;
             base_value(e, input, &plain, &o)?;
-            check_hooks(g, &plain, &o)?;
+            check_hooks(g, input, &plain, &o)?;
             if st.checks_called > 0 {
                 out.classes.push("check_called");
             }
